@@ -383,7 +383,7 @@ def solve_obligation(ob, timeout_ms=10000, want_model=True):
     if ob.kind == "family":
         try:
             from .bigsum import prove_with_congruence
-            if prove_with_congruence(ob.hyps, g, 5000):
+            if prove_with_congruence(ob.hyps, g, 15000):
                 return "proved", "z3+sum-congruence", time.time() - t0, None
         except z3.Z3Exception:
             pass
